@@ -12,6 +12,7 @@ import (
 	"os"
 	"os/exec"
 	"path/filepath"
+	"runtime/debug"
 	"runtime/pprof"
 	"sort"
 	"strings"
@@ -223,6 +224,7 @@ func runNative(prop string, harnessNames []string, vf *vecFile, work string, rac
 }
 
 func main() {
+	debug.SetGCPercent(200)
 	if len(os.Args) < 3 {
 		fatal("usage: vsym check <property> [--tier quick|thorough] | vsym replay <property> <file>")
 	}
